@@ -220,17 +220,17 @@ Proof.
   intros p v Hp _. destruct p, v; try discriminate; cbn; eexists; (split; [reflexivity|]); (split; [reflexivity|discriminate]).
 Qed.
 
-Lemma xml_rt_spyne_main : forall (tns : text) (poly : bool) (pm : text -> text) (U : universe) (fuel : nat) (roots : list cid) (reg : registry),
+Lemma xml_rt_spyne_main : forall (tns : text) (poly : bool) (pm : text -> text) (U : universe) (fuel : nat) (roots : list cid) (reg : registry) (unres : list (text * text)),
   wf_universe U = true -> (forall ns, pfx_ok (pm ns) = true) ->
   populate shape_ok U tns fuel roots = Some reg ->
   forall n t v ns name,
     pconf spyne_leaf U poly (registered reg U) n t v = true ->
-    exists e, penc shape_ok spyne_leaf (mkpcfg false tns poly true pm reg) U n t ns name v = Ok e
+    exists e, penc shape_ok spyne_leaf (mkpcfg false tns poly true pm reg unres) U n t ns name v = Ok e
               /\ forall sc nillable,
-                   pdec shape_ok spyne_leaf (mkpcfg false tns poly true pm reg) U n sc t nillable (wire e) = Ok (pnorm U n t v).
+                   pdec shape_ok spyne_leaf (mkpcfg false tns poly true pm reg unres) U n sc t nillable (wire e) = Ok (pnorm U n t v).
 Proof.
-  intros tns poly pm U fuel roots reg Hwf Hpm _ n t v ns name Hx.
-  apply (xml_rt_main spyne_leaf (mkpcfg false tns poly true pm reg) U spyne_leaf_rt Hwf eq_refl eq_refl Hpm). exact Hx.
+  intros tns poly pm U fuel roots reg unres Hwf Hpm _ n t v ns name Hx.
+  apply (xml_rt_main spyne_leaf (mkpcfg false tns poly true pm reg unres) U spyne_leaf_rt Hwf eq_refl eq_refl Hpm). exact Hx.
 Qed.
 
 Lemma hier_rt_spyne_main : forall U poly, wf_universe U = true -> sub_names_ok U = true ->
